@@ -6,7 +6,7 @@ CLAIMS = {
  'C01': ('proof', "Verus: run_a_star, backtrack::vertex_oriented_route and run_a_star_edge_oriented extracted verbatim every run; loop invariants TW/DOM/POT + no-revisit and contiguity lemmas for every graph, direction and model configuration; native witnesses (thorough) replay failures on the real drivers",
          "assumed: contracts of the search instance's callees (graph accessors, frontier/traversal models, priority_queue) as listed in evidence; termination of the loops not proved; the k-shortest-path drivers only through concrete witnesses; known finding C01-edge-oriented-destination-entry",
          "Verus loop invariants on verbatim-extracted driver code + lemmas", "3/C01 + AL"),
- 'C03': ('proof', "Kani: bearing_to_destination (function contract) and Turn::from_angle complete over all i16; Verus: per-edge state/cost split of EdgeTraversal::forward/reverse_traversal (shared with C07)",
+ 'C03': ('proof', "Kani: bearing_to_destination (function contract) and Turn::from_angle complete over all i16; Verus: StateModel get/set/add for distance, time, energy (slot += converted increment, frame) with the accumulation lemma, and the per-edge state/cost split of EdgeTraversal::forward/reverse_traversal",
          "summary serialisation through serde_json not under contract; headings assumed in 0..=360 as documented; format! stubbed", "Kani function contracts + Verus contracts on extracted code", "3/C03"),
  'C05': ('proof', "Verus: run_a_star + advance_search under contract; 'no path' only from an exhausted queue, where invariant EXP gives a labelled set closed under permitted edges that does not contain the target; Ok with a target => target in tree",
          "assumed callee contracts as in C01; optimality of labels not claimed; queue exhaustion time not bounded", "Verus loop invariant EXP + postconditions on the verbatim driver", "3/C05 + AL"),
@@ -18,16 +18,19 @@ CLAIMS = {
          "Instant::now stubbed by a symbolic clock; format! stubbed; Combined only with one member; limits inside ksp sub-searches not covered", "Kani complete harnesses + Verus loop invariant CNT", "3/C10"),
  'C11': ('proof', "Verus: CompactOrderedHashMap::{empty,len,is_empty,contains_key,get,get_index,insert} extracted verbatim, verified at every size against an abstract (slot map, value map) view with whole-view postcondition and representation invariant",
          "K,V instantiated at u64 (R6); HashMap::from assumed; get_pair/keys/iter/new at sizes >= 5 only by concrete witnesses; StateModel not yet under contract", "Verus data-structure invariant + whole-view postconditions on extracted code", "3/C11"),
+ 'C04': ('proof', "Verus: VehicleRestriction::valid (reals, physical 0.1% lemmas for distance/weight units) and the valid_frontier methods of the Combined, RoadClass, TurnRestriction, VehicleRestriction and EdgeCut models extracted verbatim; AL invariant PERM: every tree entry's edge passed valid_frontier",
+         "A-REAL; inner/underlying models opaque; trait-object dispatch replaced by direct calls on shim structs; query parsing (serde_json) not under contract; turn restrictions decided for the pair stored at expansion time", "Verus postconditions + loop invariants on extracted code", "3/C04"),
+ 'C08': ('proof', "Verus (reals): vehicle_ops, PredictionModelRecord::predict (cache hit == miss through a call-site obligation on cache.update), get_phev_energy, BEV/PHEV::consume_energy, BEV::best_case_energy, Energy::create extracted verbatim; soc' = clamp(soc - 100*delta/capacity) in [0,100]; Kani bit-precise range of soc_from_battery_and_delta",
+         "A-REAL for the Verus unit; StateModel accessors / prediction model / FloatCachePolicy / f64::clamp as assumed contracts; update_from_query (serde_json) and ICE not covered", "Verus postconditions on extracted code + Kani complete harness", "3/C08"),
+ 'C14': ('proof', "Verus: find_nearest_index (unbounded loop incl. termination), Interp1D/2D/3D::linear and Interpolator::validate_inputs extracted verbatim: bracketing cell, multilinear form, min/max of the corners, exactness at grid points (1-D), continuity lemma, out-of-grid rejection",
+         "A-REAL; InterpND, InterpolationSpeedGradeModel and the agreement with the smartcore model are not covered; axes with >= 2 strictly increasing points", "Verus loop invariants + nonlinear lemmas on extracted code", "3/C14"),
  'C13': ('other', "decision kernels only: RouteSimilarityFunction::is_similar (Kani function contract, complete), KspTerminationCriteria::terminate_search (complete over usize with stated product bound), Yen spur-range expression obligation (R10); the drivers themselves are not under contract",
          "the k-shortest-path drivers' validity/distinctness/count/termination are NOT decided; known finding C13-yen-one-edge-underflow", "Kani function contracts on decision kernels + expression-level obligations", "3/C13"),
 }
 NA = {
  'C02': "not built yet in this session (planned: relaxation-step invariant Q on AL; optimality itself is out of reach)",
- 'C04': "not built yet in this session (planned: VehicleRestriction::valid + frontier models in Verus, AL clause PERM)",
  'C06': "schedule independence under rayon is outside both back ends (Kani has no threads; Verus has no model of rayon); kernels not built yet",
- 'C08': "not built yet in this session (planned: vehicle_ops in Verus/Kani)",
  'C12': "whole-application panic freedom is outside both back ends; kernels not built yet",
- 'C14': "not built yet in this session (planned: find_nearest_index + linear interpolation in Verus)",
  'C15': "file parsing (csv/serde/flate2) is outside both back ends; in-memory half not built yet",
  'C16': "nearest-neighbour search is rstar's and the tolerance is a haversine (transcendental) distance: no contract within reach expresses agreement with an exhaustive scan",
  'C17': "not built yet in this session (MultiSet iterator: closures rejected by Verus, CBMC memory blow-up measured)",
@@ -50,7 +53,7 @@ def main():
          "engines": [{"name": "check", "path": "/verif/check", "serves_properties": claimed,
                       "kind_free_text": "contract-based deductive verification: Verus on functions extracted verbatim from /repo every run (logged rewrite rules) + Kani function contracts / complete harnesses overlaid on the real crates; native witnesses replay failures outside the verifier"}],
          "checks": checks,
-         "notes": "exit 0 = all obligations discharged (KNOWN-FINDING lines for listed findings); exit 1 = VIOLATION; exit 2 = undecided (lost anchor, unsupported construct, resource limit), never an alarm. /repo carries fix: commits only (bc55958, eede489, 78ef5fe); see known_findings.json.",
+         "notes": "exit 0 = all obligations discharged (KNOWN-FINDING lines for listed findings); exit 1 = VIOLATION; exit 2 = undecided (lost anchor, unsupported construct, resource limit), never an alarm. /repo carries fix: commits only (bc55958, eede489, 78ef5fe, 43a7634); see known_findings.json.",
          "not_applicable": [{"property_id": p, "reason": r} for p, r in sorted(NA.items()) if p not in claimed]}
     json.dump(m, open(os.path.join(V, 'MANIFEST.json'), 'w'), indent=1)
     print('claimed', claimed)
